@@ -478,7 +478,7 @@ def run_pipeline(
                 num_bytes = buckets_data_tree.nbytes
                 num_bytes += detector.scene.data.nbytes
 
-                if debug:
+                if debug and detector._intermediate is not None:
                     num_bytes += detector.intermediate.nbytes
 
                 if detector._data is not None:
@@ -510,7 +510,7 @@ def run_pipeline(
             dct["/"] = buckets_data_tree
 
         # If debug is enabled, add intermediate data to the `DataTree`.
-        if debug:
+        if debug and detector._intermediate is not None:
             datatree_intermediate: xr.DataTree = detector.intermediate
 
             # Remove temporary data_tree '/last' from 'datatree_intermediate'
